@@ -277,6 +277,83 @@ def sizeof(t):
     if isinstance(t, PtrT): return 8
     raise NotImplementedError
 
+def ll_layout(t):
+    """(size, alignment) of an IR type under the x86-64 data layout; None when unknown (opaque, odd integer widths)"""
+    if isinstance(t, IntT):
+        if t.w in (1, 8): return (1, 1)
+        if t.w in (16, 32, 64): return (t.w // 8, t.w // 8)
+        if t.w == 128: return (16, 16)
+        return None
+    if isinstance(t, FloatT): return {'float': (4, 4), 'double': (8, 8)}.get(t.k, (16, 16))
+    if isinstance(t, PtrT): return (8, 8)
+    if isinstance(t, ArrT):
+        e = ll_layout(t.el)
+        return None if e is None else (e[0] * t.n, e[1])
+    if isinstance(t, VecT):
+        e = ll_layout(t.el)
+        if e is None or (isinstance(t.el, IntT) and t.el.w == 1): return None
+        n = e[0] * t.n; p2 = 1
+        while p2 < n: p2 *= 2
+        return (p2, p2)
+    if isinstance(t, StructT):
+        if t.fields is None: return None
+        off = 0; al = 1
+        for f in t.fields:
+            e = ll_layout(f)
+            if e is None: return None
+            a = 1 if t.packed else e[1]
+            off = (off + a - 1) // a * a + e[0]; al = max(al, a)
+        return ((off + al - 1) // al * al, al)
+    return None
+
+def ll_members(t):
+    """[(offset, C member path, type)] of the direct members of an aggregate; None for scalars / unknown layout / long arrays"""
+    if isinstance(t, StructT) and t.fields:
+        off = 0; out = []
+        for i, f in enumerate(t.fields):
+            e = ll_layout(f)
+            if e is None: return None
+            a = 1 if t.packed else e[1]
+            off = (off + a - 1) // a * a
+            out.append((off, ".f%d" % i, f)); off += e[0]
+        return out
+    if isinstance(t, ArrT) and 0 < t.n <= 64:
+        e = ll_layout(t.el)
+        return None if e is None else [(i * e[0], ".a[%d]" % i, t.el) for i in range(t.n)]
+    return None
+
+def ll_cover(dt, dp, st, sp, n, depth=0):
+    """member-wise assignments [(dst path, src path)] that copy exactly the first n bytes of an object of IR type st onto an object of
+    IR type dt (identical member types at identical offsets; padding is not copied), or None when the two layouts do not line up"""
+    if depth > 48 or n <= 0: return None
+    ld, ls = ll_layout(dt), ll_layout(st)
+    if ld is None or ls is None or n > ld[0] or n > ls[0]: return None
+    if type(dt) is type(st) and repr(dt) == repr(st) and ld[0] == n and not isinstance(dt, VecT): return [(dp, sp)]
+    fd, fs = ll_members(dt), ll_members(st)
+    if fd and fs:
+        out = []; i = 0; ok = True; end = 0
+        while True:
+            if end >= n: break                                # everything copied
+            if i >= len(fd) or i >= len(fs):
+                ok = i >= len(fd) and i >= len(fs); break    # both exhausted: the rest of n is tail padding
+            (od, pd, td), (os_, ps, ts) = fd[i], fs[i]
+            if od != os_: ok = False; break
+            if od >= n: break                                 # the rest of n was padding
+            zd, zs = ll_layout(td)[0], ll_layout(ts)[0]
+            if zd == zs and od + zd <= n: r = ll_cover(td, dp + pd, ts, sp + ps, zd, depth + 1)
+            elif n - od < zd and n - od < zs: r = ll_cover(td, dp + pd, ts, sp + ps, n - od, depth + 1)
+            else: r = None
+            if r is None: ok = False; break
+            out += r; i += 1; end = min(n, od + zd)
+        if ok and out: return out
+    if fd and fd[0][0] == 0:
+        r = ll_cover(fd[0][2], dp + fd[0][1], st, sp, n, depth + 1)
+        if r: return r
+    if fs and fs[0][0] == 0:
+        r = ll_cover(dt, dp, fs[0][2], sp + fs[0][1], n, depth + 1)
+        if r: return r
+    return None
+
 # ---------------------------------------------------------------- module parse
 class Func:
     def __init__(s): s.name = None; s.ret = None; s.params = []; s.blocks = []; s.va = False
@@ -532,6 +609,7 @@ class Emit:
         ctx = s.ctx
         o = []
         s.bc = {}   # i8* local -> (element type, expression of the typed source pointer)
+        s.bcs = {}  # i8* local -> (aggregate pointee type, expression of the typed source pointer)
         locs = {}   # name -> type
         for t, n in f.params: locs[n] = t
         insts = []
@@ -710,6 +788,8 @@ class Emit:
             if op == 'bitcast' and isinstance(x.ty, PtrT) and isinstance(t2, PtrT) and isinstance(t2.to, IntT) and t2.to.w == 8 \
                and isinstance(x.ty.to, (IntT, FloatT, PtrT)) and not (isinstance(x.ty.to, PtrT) and isinstance(x.ty.to.to, FuncT)):
                 s.bc[dest] = (x.ty.to, s.val(x))
+            if op == 'bitcast' and isinstance(x.ty, PtrT) and isinstance(t2, PtrT) and isinstance(t2.to, IntT) and t2.to.w == 8 and isinstance(x.ty.to, (StructT, ArrT)):
+                s.bcs[dest] = (x.ty.to, s.val(x))
             if isinstance(x.ty, VecT) and isinstance(t2, VecT) and op != 'bitcast':   # lane-wise conversion
                 X = s.val(x)
                 return setd(t2, s.vlanes(t2, [s.cast(op, V('raw', "%s.a[%d]" % (X, i), x.ty.el), t2.el) for i in range(t2.n)]))
@@ -857,6 +937,22 @@ class Emit:
                    and repr(s.bc[args[0].val][0]) == repr(s.bc[args[1].val][0]):
                     et = s.bc[args[0].val][0]
                     return ('stmt', "LL_MEM%s_T(%s, %s, %s, %s);" % (mv, ctype(ctx, et), s.bc[args[0].val][1], s.bc[args[1].val][1], A[2]))
+                if args[2].kind != 'int' and args[0].kind == 'local' and args[1].kind == 'local' and ((args[0].val in s.bc) != (args[1].val in s.bc)):
+                    # exactly one operand is a known T* (scalar T) viewed as i8*, the other a raw i8* (e.g. a fresh malloc block, utl::vector::resize):
+                    # copy word-wise through T* on both sides; the macro asserts that the length is a multiple of sizeof(T), so this equals the byte copy
+                    et, _ = s.bc[args[0].val] if args[0].val in s.bc else s.bc[args[1].val]
+                    if isinstance(et, (IntT, FloatT)):
+                        ct = ctype(ctx, et)
+                        d_ = s.bc[args[0].val][1] if args[0].val in s.bc else "((%s*)%s)" % (ct, A[0])
+                        s_ = s.bc[args[1].val][1] if args[1].val in s.bc else "((%s*)%s)" % (ct, A[1])
+                        return ('stmt', "LL_MEM%s_T(%s, %s, %s, %s);" % (mv, ct, d_, s_, A[2]))
+                if args[2].kind == 'int' and args[0].kind == 'local' and args[1].kind == 'local' and args[0].val in s.bcs and args[1].val in s.bcs:
+                    # whole-aggregate copy between two typed objects (same IR type at offset 0 of both, length == its size): a struct
+                    # assignment keeps the copy field-wise (constants survive in the solver) instead of a byte-wise memcpy
+                    (dt, de), (st, se) = s.bcs[args[0].val], s.bcs[args[1].val]
+                    cov = ll_cover(dt, "", st, "", args[2].val)
+                    if cov and len(cov) <= 64:
+                        return ('stmt', " ".join("LL_AGGCPY((*%s)%s, (*%s)%s);" % (de, dp, se, sp) for dp, sp in cov))
                 return ('stmt', "LL_MEM%s(%s, %s, %s);" % (mv, A[0], A[1], A[2]))
             if n.startswith('@llvm.memset'): return ('stmt', "LL_MEMSET(%s, %s, %s);" % (A[0], A[1], A[2]))
             if n.startswith('@llvm.assume'): return ('stmt', "LL_ASSUME(%s);" % A[0])
@@ -962,6 +1058,7 @@ static inline void ll_memset_loop(uint8_t* d, uint8_t v, size_t n) { for (size_t
 #define LL_MEMCPY_T(T, d, s, n) memcpy((void*)(d), (const void*)(s), (n))
 #define LL_MEMMOVE_T(T, d, s, n) memmove((void*)(d), (const void*)(s), (n))
 #endif
+#define LL_AGGCPY(d, s) ((d) = (s))
 #define LL_ALLOCA(n) __builtin_alloca(n)
 #define LL_FMULADD(a, b, c) ((a) * (b) + (c))
 #define CHK_NSW_ADD(w, a, b) do { int64_t r_; CHK_NSW(!__builtin_add_overflow((int64_t)(a), (int64_t)(b), &r_) && ((w) == 64 || (r_ >= -((int64_t)1 << ((w) - 1)) && r_ < ((int64_t)1 << ((w) - 1)))), "add"); } while (0)
